@@ -79,7 +79,14 @@ def check(run, replay=None):
         for f in (range(0, 60) if thorough else range(j, 60, 3)):
             initfail.append(S.Scn("IF%d_%d" % (j, f), (f + j) % 2, 50, ["r:1:3", "r:1:3", "gt", "w:2:1:7", "r:1:2", "nb"], kind=kind, csd=S.csd_for(kind),
                                   memseed=11 + j, tseed=60 + f, fails=str(f), tag="initfail"))
-    allscn = legal + over + swaps + initfail
+    # blocks whose CRC-16 has a zero high byte / a zero low byte (1 block in 128): written, read back singly and in a
+    # multi-block read, with CRC checking on - an intact block must never be refused whatever its checksum looks like
+    crcsp = []
+    for cls, (seed, c) in sorted(S.special_crc_seeds().items()):
+        for j, kind in enumerate(("V2HC", "V1SC")):
+            crcsp.append(S.Scn("CS%s%d" % (cls, j), 1, 50, ["w:4:1:%d" % seed, "r:1:4", "r:2:3", "r:3:4", "w:9:2:%d" % seed, "r:2:9"], kind=kind, csd=S.csd_for(kind),
+                               memseed=17, tseed=80 + j, tag="crc-" + cls))
+    allscn = legal + over + swaps + initfail + crcsp
     ires = tie.run_impl(allscn)
     mres = tie.run_model(allscn, ires)
     diffs = tie.compare(allscn, ires, mres)
